@@ -249,4 +249,46 @@ def runRegistryFrom (p : SepFlagPlacement) (idx : Nat) (groupStart : Bool) : Lis
 def runRegistry (ts : List RegTest) : RunState :=
   runRegistryFrom sepFlagPlacement 0 true ts RunState.init
 
+/-! ### the command-line path: `-p` reaches the registry through `initializeTestRun` -/
+
+/-- which switches were given on the command line (`CommandLineArguments` getters) -/
+structure CliArgs where
+  verbose         : Bool
+  veryVerbose     : Bool
+  color           : Bool
+  separateProcess : Bool
+  runIgnored      : Bool
+  crashOnFail     : Bool
+deriving Repr, DecidableEq, Inhabited
+
+def CliArgs.has (a : CliArgs) : CliSwitch → Bool
+  | .verbose => a.verbose
+  | .veryVerbose => a.veryVerbose
+  | .color => a.color
+  | .separateProcess => a.separateProcess
+  | .runIgnored => a.runIgnored
+  | .crashOnFail => a.crashOnFail
+
+/-- the statement list of `initializeTestRun` executed in order: the switches whose action is
+    performed.  `chainTaken`: a condition of the current `if / else if` chain was already true. -/
+def execInit (a : CliArgs) (chainTaken : Bool) : List InitStmt → List CliSwitch
+  | [] => []
+  | s :: rest =>
+    if s.isElse then
+      (if !chainTaken && a.has s.switch then [s.switch] else []) ++ execInit a (chainTaken || a.has s.switch) rest
+    else
+      (if a.has s.switch then [s.switch] else []) ++ execInit a (a.has s.switch) rest
+
+/-- `registry_->setRunTestsInSeperateProcess()` is called for these arguments -/
+def separateModeOn (a : CliArgs) : Bool := (execInit a false initStatements).contains .separateProcess
+
+/-- without separate-process mode every test runs inside the runner -/
+def runInRunnerAll (idx : Nat) : List RegTest → RunState → RunState
+  | [], st => st
+  | _ :: ts, st => runInRunnerAll (idx + 1) ts (runInRunnerAt idx st)
+
+/-- `CommandLineTestRunner::runAllTestsMain` for one repetition, as far as `-p` is concerned -/
+def runCommandLine (a : CliArgs) (ts : List RegTest) : RunState :=
+  if separateModeOn a then runRegistry ts else runInRunnerAll 0 ts RunState.init
+
 end SepProc
